@@ -23,6 +23,12 @@ pub enum PKind {
 
 impl PKind {
     pub fn of(e: &ParseError) -> PKind {
+        if crate::fe::FORMAT_ERRORS.with(|f| f.get()) {
+            std::hint::black_box((format!("{}", e).len(), format!("{:?}", e).len()));
+            if let ParseError::InvalidTlf(t) = e {
+                std::hint::black_box(format!("{} {:?}", t, t).len());
+            }
+        }
         match e {
             ParseError::LeftoverInput => PKind::Leftover,
             ParseError::UnexpectedEOF => PKind::Eof,
